@@ -224,7 +224,7 @@ vp_entry_or_insert(headers, header, value);
 pub open spec fn host_field_spec(u: &Url) -> Option<Seq<u8>> {
     match url_host(u) {
         None => None,
-        Some(h) => Some(match url_port(u) { Some(p) => str_bytes(h) + seq![58u8] + dec_digits(p as nat), None => str_bytes(h) }),
+        Some(h) => Some(match url_port(u) { Some(p) => str_bytes(h) + str_bytes(":"@) + dec_digits(p as nat), None => str_bytes(h) }),
     }
 }
 /// the map has exactly one Host field and it is `host_field_spec(u)`
@@ -237,10 +237,7 @@ pub fn vp_format_host_port(host: &str, port: u16) -> (r: String)
     ensures str_bytes(r@) == str_bytes(host@) + seq![58u8] + dec_digits(port as nat)
 { format!("{host}:{port}") }
 //@@ fn src/request/mod.rs - set_host props=C08,C10
-//@@ rw R1
-format!("{host}:{port}")
-//@@ =>
-vp_format_host_port(host, port)
+//@@ fmt
 //@@ rw R1 #*
 HOST
 //@@ =>
@@ -249,6 +246,7 @@ vp_hn_host()
 let host =
 //@@ with
     broadcast use group_into_hv;
+    broadcast use group_fmt;
 //@@ contract
     ensures
         res is Ok ==> host_is_for(final(headers), url), // id: exactly_one_host_field_for_this_url [C08,C10]
@@ -261,6 +259,7 @@ impl<B> PreparedRequest<B> {
 //@@ block R8
 for (key, value) in self.headers.iter()
 //@@ =>
+broadcast use group_fmt;
 {
     let mut vp_it = vp_hm_iter(&self.headers);
     let ghost all = hm_iter_order(&self.headers);
@@ -269,10 +268,11 @@ for (key, value) in self.headers.iter()
         invariant
             hm_iter_remaining(&vp_it).len() <= all.len(),
             hm_iter_remaining(&vp_it) == all.skip(all.len() - hm_iter_remaining(&vp_it).len()),
-            (*writer).sent() == w0 + header_lines(all.take(all.len() - hm_iter_remaining(&vp_it).len())), // id: one_line_per_field_so_far [C07]
+            (*writer).sent() =~= w0 + header_lines(all.take(all.len() - hm_iter_remaining(&vp_it).len())), // id: one_line_per_field_so_far [C07]
         ensures hm_iter_remaining(&vp_it).len() == 0,
         decreases hm_iter_remaining(&vp_it).len(),
     {
+        broadcast use group_fmt;
         let ghost k = all.len() - hm_iter_remaining(&vp_it).len();
         let ghost rem0 = hm_iter_remaining(&vp_it);
         match vp_hm_iter_next(&mut vp_it) {
@@ -283,24 +283,25 @@ for (key, value) in self.headers.iter()
                     assert(all[k] == rem0[0]);
                     assert(all.take(k + 1).drop_last() =~= all.take(k));
                     assert(all.take(k + 1).last() == all[k]);
+                    assert(rem0[0] == (hn_bytes(key), hv_bytes(value)));
+                    assert(all[k].0 == hn_bytes(key) && all[k].1 == hv_bytes(value));
+                    let line = hn_bytes(key) + str_bytes(": "@) + hv_bytes(value) + crlf2();
+                    let s_in = w0 + header_lines(all.take(k));
+                    assert((*writer).sent() =~= s_in + hn_bytes(key) + str_bytes(": "@) + hv_bytes(value) + crlf2());
+                    assert((*writer).sent() =~= s_in + line);
+                    assert(header_lines(all.take(k + 1)) =~= header_lines(all.take(k)) + line);
+                    assert(w0 + header_lines(all.take(k + 1)) =~= (w0 + header_lines(all.take(k))) + line);
                 }
             }
         }
     }
     proof { assert(all.take(all.len() as int) =~= all); }
 }
-//@@ rw R1
-write!(writer, "{}: ", key.as_str())
-//@@ =>
-vp_write_name_colon(writer, key.as_str())
+//@@ fmt ref=writer
 //@@ method R1
 write_all
 //@@ =>
 vp_write_all
-//@@ rw R1 #*
-write!(writer, "\r\n")
-//@@ =>
-vp_write_crlf(writer)
 //@@ contract
         ensures res is Ok ==> (*final(writer)).sent() == (*old(writer)).sent() + headers_block(&self.sp_headers()), // id: header_block_is_every_field_then_blank_line [C07]
 //@@ end
@@ -328,11 +329,11 @@ pub open spec fn body_wire_ok(kind: BodyKind, octets: Seq<u8>, wire: Seq<u8>) ->
 pub open spec fn request_line_ok(m: Seq<u8>, url: &Url, via_proxy: bool, line: Seq<u8>) -> bool {
     if via_proxy && url_scheme_is(url, "http") {
         exists|t: Url| same_resource(&t, url) && url_fragment(&t) is None && url_username(&t).len() == 0 && url_password(&t) is None
-            && line == m + seq![32u8] + str_bytes(#[trigger] url_display(&t)) + http11_suffix()
+            && line == m + sp() + str_bytes(#[trigger] url_display(&t)) + http11_suffix()
     } else {
         match url_query(url) {
-            Some(q) => line == m + seq![32u8] + str_bytes(url_path(url)) + seq![63u8] + str_bytes(q) + http11_suffix(),
-            None => line == m + seq![32u8] + str_bytes(url_path(url)) + http11_suffix(),
+            Some(q) => line == m + sp() + str_bytes(url_path(url)) + str_bytes("?"@) + str_bytes(q) + http11_suffix(),
+            None => line == m + sp() + str_bytes(url_path(url)) + http11_suffix(),
         }
     }
 }
@@ -351,25 +352,7 @@ vp_http11()
 url.scheme() == "http"
 //@@ =>
 vp_str_eq(url.scheme(), "http")
-//@@ rw R1
-write!(writer, "{} {} {:?}\r\n", self.method.as_str(), target, version)
-//@@ =>
-vp_write_line_url(&mut writer, self.method.as_str(), &target, version)
-//@@ rw R1
-write!(
-                writer,
-                "{} {}?{} {:?}\r\n",
-                self.method.as_str(),
-                url.path(),
-                query,
-                version,
-            )
-//@@ =>
-vp_write_line_path_query(&mut writer, self.method.as_str(), url.path(), query, version)
-//@@ rw R1
-write!(writer, "{} {} {:?}\r\n", self.method.as_str(), url.path(), version)
-//@@ =>
-vp_write_line_path(&mut writer, self.method.as_str(), url.path(), version)
+//@@ fmt
 //@@ rw R12
 body::ChunkedWriter(
 //@@ =>
@@ -389,14 +372,16 @@ close
 //@@ splice before
 let mut writer = vp_bufwriter_new(writer);
 //@@ with
+        broadcast use group_fmt;
+        broadcast use group_fmt_http;
         broadcast use axiom_same_resource_trans;
         proof { reveal_strlit(""); }
-//@@ splice after
-vp_write_line_url(&mut writer, self.method.as_str(), &target, version)?;
+//@@ splice before
+} else if let Some(query) = url.query() {
 //@@ with
             proof {
                 let m = method_bytes(&self.method);
-                assert(writer.sent() =~= m + seq![32u8] + str_bytes(url_display(&target)) + http11_suffix());
+                assert(writer.sent() =~= m + sp() + str_bytes(url_display(&target)) + http11_suffix());
                 assert(same_resource(&target, url) && url_fragment(&target) is None && url_username(&target).len() == 0 && url_password(&target) is None);
             }
 //@@ splice before
@@ -407,8 +392,8 @@ self.write_headers(&mut writer)?;
             let m = method_bytes(&self.method);
             if !(proxy is Some && url_scheme_is(url, "http")) {
                 match url_query(url) {
-                    Some(q) => { assert(line =~= m + seq![32u8] + str_bytes(url_path(url)) + seq![63u8] + str_bytes(q) + http11_suffix()); },
-                    None => { assert(line =~= m + seq![32u8] + str_bytes(url_path(url)) + http11_suffix()); }
+                    Some(q) => { assert(line =~= m + sp() + str_bytes(url_path(url)) + str_bytes("?"@) + str_bytes(q) + http11_suffix()); },
+                    None => { assert(line =~= m + sp() + str_bytes(url_path(url)) + http11_suffix()); }
                 }
             }
         }
@@ -505,10 +490,10 @@ vp_get_location(resp.headers())
 self.base_redirect_url(&location, &url)
 //@@ =>
 self.base_redirect_url(vp_cow_str(&location), &url)
-//@@ rw R1
-url.scheme()
+//@@ method R1
+scheme
 //@@ =>
-vp_scheme_str(&url)
+vp_scheme_str(&@@RECV)
 //@@ splice after
 loop
 //@@ with
@@ -519,8 +504,8 @@ loop
                 forall|o: Seq<u8>| o != host_name() ==> #[trigger] field_vals(&self.headers, o) == field_vals(&old(self).headers, o), // id: callers_header_fields_preserved_on_every_hop [C10]
                 old(self).sp_settings().max_redirections < u32::MAX,
             decreases self.base_settings.max_redirections - redirections, // id: each_followed_redirect_uses_up_budget [C09,C05]
-//@@ splice after_stmt
-let proxy =
+//@@ splice before_stmt
+let info = ConnectInfo {
 //@@ with
             let ghost hop = url;
             proof { assert(proxy == self.base_settings.proxy_settings.proxy_spec(&hop)); } // id: proxy_choice_reevaluated_for_this_hop [C10,C08]
@@ -538,8 +523,8 @@ redirections += 1;
                 assert(self.base_settings.follow_redirects && is_followed_status(status_u16(resp.sp_status()))); // id: only_followed_when_enabled_and_a_followed_status [C09]
                 assert(resp.sp_url() == hop); // id: response_reports_this_hops_url [C09]
             }
-//@@ splice after_stmt
-url = self.base_redirect_url(
+//@@ splice block_end
+loop
 //@@ with
             proof { assert(Some(url) == redirect_target(&hop, utf8_lossy(hv_bytes(&field_vals(&resp.sp_headers(), location_name())[0])))); } // id: next_hop_is_location_resolved_against_this_hop [C09]
 //@@ contract
